@@ -244,6 +244,9 @@ def classify(s, crash_is_violation):
             fails.append(json.load(open(fn)))
         except Exception:
             pass
+    # Go's native fuzzer saves a crasher under ./testdata/fuzz/<Target>/<hash> (cwd = scratch)
+    for fn in sorted(glob.glob(os.path.join(s.cwd, 'testdata', 'fuzz', '*', '*'))):
+        fails.append({'test': os.path.basename(os.path.dirname(fn)), 'failfile': fn, 'detail': '', 'fuzz': True})
     if os.path.exists(os.path.join(s.cwd, 'verif_inconclusive')):
         return 'inconclusive', [], out, 'harness reported inconclusive: ' + open(os.path.join(s.cwd, 'verif_inconclusive')).read()[:500]
     if s.killed:
@@ -311,6 +314,7 @@ def merge_evidence(pid, prop, tier, seed, evdir, wall, nviol, known_lines):
                          'excluded_known': p['excluded_known'], 'shards': p['shards'], **({'exhaustive': p['exhaustive']} if p['exhaustive'] is not None else {}),
                          **({'extra': p['extra']} if p['extra'] else {})}
                      for n, p in sorted(parts.items())},
+           'excluded_known': sum(p['excluded_known'] for p in parts.values()),
            'known_findings_reported': known_lines}
     exh = [p['exhaustive'] for p in parts.values() if p['exhaustive'] is not None]
     if exh and all(exh) and len(exh) == len(parts):
@@ -348,7 +352,10 @@ def save_replay(pid, fail, shard, out, run):
     stamp = time.strftime('%Y%m%d-%H%M%S')
     test = fail.get('test', 'unknown')
     safe = re.sub(r'[^A-Za-z0-9_.-]', '_', test)
-    if fail.get('failfile') and os.path.exists(fail['failfile']):
+    if fail.get('fuzz') and os.path.exists(fail['failfile']):
+        dst = os.path.join(d, '%s-%s-%s.fuzz' % (safe, stamp, os.path.basename(fail['failfile'])[:16]))
+        shutil.copy(fail['failfile'], dst)
+    elif fail.get('failfile') and os.path.exists(fail['failfile']):
         dst = os.path.join(d, '%s-%s-s%d.fail' % (safe, stamp, shard.idx))
         shutil.copy(fail['failfile'], dst)
     elif fail.get('detail'):
@@ -357,7 +364,7 @@ def save_replay(pid, fail, shard, out, run):
     else:
         dst = os.path.join(d, '%s-%s-s%d.log' % (safe, stamp, shard.idx))
         open(dst, 'w').write(out[-200000:])
-    meta = {'property': pid, 'test': test, 'engine': run['engine'], 'race': bool(run.get('race')),
+    meta = {'property': pid, 'test': test, 'engine': run['engine'], 'race': bool(run.get('race')), 'fuzz': run.get('fuzz'),
             'seed': os.environ.get('VERIF_SEED', '1'), 'shard': shard.idx}
     open(dst + '.meta.json', 'w').write(json.dumps(meta, indent=1))
     tail = os.path.join(d, os.path.basename(dst) + '.output.txt')
@@ -377,6 +384,8 @@ def do_replay(reg, pid, path):
     meta = json.load(open(meta_p))
     prepare_build(reg)
     binpath, err = build_engine(reg, meta['engine'], race=meta.get('race', False))
+    if binpath and path.endswith('.fuzz') and meta.get('fuzz'):
+        return replay_fuzz(reg, pid, path, meta, binpath)
     if not binpath:
         print(err)
         log('inconclusive: harness does not build')
@@ -399,6 +408,31 @@ def do_replay(reg, pid, path):
         if status == 'inconclusive':
             log('inconclusive: ' + why)
             return 2
+        print('replay passed: property=%s replay=%s' % (pid, path))
+        return 0
+    finally:
+        shutil.rmtree(scratch, ignore_errors=True)
+
+
+def replay_fuzz(reg, pid, path, meta, binpath):
+    """Re-run one saved fuzz input as a seed-corpus entry of its target (no fuzzing engine involved)."""
+    scratch = scratch_base()
+    try:
+        target = meta['fuzz']
+        cwd = os.path.join(scratch, 'replay')
+        corp = os.path.join(cwd, 'testdata', 'fuzz', target)
+        os.makedirs(corp)
+        os.makedirs(os.path.join(cwd, 'tmp'))
+        shutil.copy(path, os.path.join(corp, 'replayinput'))
+        env = dict(os.environ)
+        env.update(VERIF_TIER='quick', VERIF_SEED='1', VERIF_REPLAY=os.path.abspath(path), TMPDIR=os.path.join(cwd, 'tmp'),
+                   VERIF_SCRATCH=os.path.join(cwd, 'tmp'), VERIF_KNOWN=os.path.join(VERIF, 'known_findings.json'))
+        p = subprocess.run([binpath, '-test.run', '^%s$/^replayinput$' % re.escape(target), '-test.v', '-test.timeout', '600s'],
+                           cwd=cwd, env=env, stdout=subprocess.PIPE, stderr=subprocess.STDOUT, text=True)
+        sys.stdout.write(p.stdout[-20000:])
+        if p.returncode != 0:
+            print('VIOLATION property=%s replay=%s' % (pid, path))
+            return 1
         print('replay passed: property=%s replay=%s' % (pid, path))
         return 0
     finally:
